@@ -239,6 +239,9 @@ impl<T: RefCnt, Cfg: Config> CaS<T> for HybridStrategy<Cfg> {
                 // panicked, the already moved-out return value would not be dropped and the debt
                 // it holds would stay in its slot for ever.
                 drop(new);
+                // The same goes for `current`, which can be a `Guard` passed by value and that
+                // guard can be the last owner of whatever it points to.
+                drop(current);
                 return old;
             }
             // If they are still equal, put the new one in.
